@@ -760,8 +760,27 @@ def header_of(blk):
     raise ExtractError('block without header: %s' % blk.head)
 
 
-def generate(unit, vacuity=False):
+def degraded_block(blk, reason):
+    """An fn block that cannot be posed on this tree (lost anchor, unsupported construct): emitted as its own
+    header with an `external_body` -- its contract is ASSUMED for the callers inside the unit, the function itself
+    is reported as NOT decided (never as proved) and the properties that own it are undecided."""
+    relfile, scope, name, opts = split_head(blk.head)
+    hl = header_of(blk)
+    ls = [Line('// [DEGRADED: %s]' % reason.replace('\n', ' ')[:300], (blk.tmpl, blk.line), 'header'),
+          Line('#[verifier::external_body]', (blk.tmpl, blk.line), 'header')]
+    ls += [Line(t, (blk.tmpl, no), 'header') for (t, no) in hl]
+    ls.append(Line('{ unimplemented!() }', (blk.tmpl, blk.line), 'header'))
+    props = [p for p in opts.get('props', '').split(',') if p]
+    meta = {'kind': 'fn', 'file': relfile, 'scope': scope, 'name': name, 'props': props, 'src_lines': [0, 0],
+            'src_hash': None, 'rules': [], 'template': '%s:%d' % (os.path.relpath(blk.tmpl, VERIF), blk.line),
+            'degraded': reason[:400]}
+    return ls, meta
+
+
+def generate(unit, vacuity=False, degrade=None):
     """Return (text, meta).  meta: fns, types, stubs, line map.
+    degrade: None = strict (an fn block that cannot be extracted raises); a set of fn-block indices = those blocks are
+    emitted as assumed stubs (degraded_block), and so is every block whose extraction fails.
     vacuity: False | True (all fn blocks get `ensures false`) | int k = only the k-th fn block (0-based)
     encoded as k (compared with the number of blocks emitted so far); use generate_vacuity(unit, k)."""
     path = os.path.join(VERIF, 'units', unit + '.vu')
@@ -775,8 +794,18 @@ def generate(unit, vacuity=False):
             out.append(Line(it[1], None, 'tmpl'))
             continue
         if it.kind == 'fn':
-            ls, meta = apply_fn_block(it, None)
-            if vacuity is True or (isinstance(vacuity, tuple) and vacuity[1] == len(fns)):
+            if degrade is not None and len(fns) in degrade:
+                ls, meta = degraded_block(it, degrade[len(fns)] if isinstance(degrade, dict) else 'not posable on this tree')
+            else:
+                try:
+                    ls, meta = apply_fn_block(it, None)
+                except ExtractError as e:
+                    if degrade is None:
+                        raise
+                    ls, meta = degraded_block(it, 'extraction: %s' % e)
+            if meta.get('degraded'):
+                pass
+            elif vacuity is True or (isinstance(vacuity, tuple) and vacuity[1] == len(fns)):
                 ls = add_vacuity(ls)
             meta['gen_start'] = len(out) + 1
             out.extend(ls)
@@ -809,9 +838,9 @@ def generate(unit, vacuity=False):
     return text, {'unit': unit, 'fns': fns, 'types': types, 'stubs': stubs, 'linemap': linemap}
 
 
-def generate_vacuity(unit, k):
+def generate_vacuity(unit, k, degrade=None):
     """Variant in which ONLY the k-th (0-based) fn block has `ensures false` (callers must not see it)."""
-    return generate(unit, vacuity=('only', k))
+    return generate(unit, vacuity=('only', k), degrade=degrade)
 
 
 def add_vacuity(ls):
